@@ -251,7 +251,7 @@ inductive TokStage
   | resolved                                      -- ClientFor succeeded
   | haveCache (cid : CacheId)                     -- the cache object of (host, cluster) is loaded
   | missed (cid : Option CacheId)                 -- cache miss (none: cache-less path), the closure runs next
-  | inFlight (cid : Option CacheId) (ep : Str)    -- review sent to endpoint `ep` of the cluster
+  | inFlight (cid : Option CacheId) (ep : Str) (ready : List Str)  -- review sent to endpoint `ep` (one of `ready`)
 deriving DecidableEq, Repr
 
 structure TokPend where
@@ -274,6 +274,7 @@ structure SarPend where
   attrs : Attrs
   inst : Inst          -- `cluster` of ClientFor
   ep : Str             -- endpoint whose clientset `client` is
+  ready : List Str     -- ready endpoints when it was picked (ghost)
   stage : SarStage
 deriving DecidableEq, Repr
 
@@ -467,8 +468,9 @@ def tokLookup (s : State) (rid : Rid) : State × List Out :=
       match tokGet s cid p.tok with
       | some e =>
         if s.clock < e.expiry then
-          (delTok s rid, [.tok { rid := rid, host := p.host, tok := p.tok, inst := some p.inst, res := e.ans.res,
-                                time := s.clock, src := .cached e.storedAt e.expiry, ep := none, ready := [] }])
+          let out : Out := .tok { rid := rid, host := p.host, tok := p.tok, inst := some p.inst, res := e.ans.res,
+                                  time := s.clock, src := .cached e.storedAt e.expiry, ep := none, ready := [] }
+          (delTok s rid, [out])
         else (setTok s { p with stage := .missed (some cid) }, [])
       | none => (setTok s { p with stage := .missed (some cid) }, [])
     | _ => (s, [])
@@ -484,7 +486,7 @@ def tokReview (s : State) (rid : Rid) (choice : Nat) : State × List Out :=
       | .error k => (delTok s rid, [tokOutErr s rid p.host p.tok (some p.inst) k])
       | .ok (cur, e) =>
         if cur ≠ p.inst then (delTok s rid, [tokOutErr s rid p.host p.tok (some p.inst) .moved])
-        else (setTok s { p with stage := .inFlight cid e.name }, [])
+        else (setTok s { p with stage := .inFlight cid e.name (readyNames s p.inst) }, [])
     | _ => (s, [])
   | none => (s, [])
 
@@ -493,10 +495,10 @@ def tokFinish (env : Env) (s : State) (rid : Rid) : State × List Out :=
   match findTok s rid with
   | some p =>
     match p.stage with
-    | .inFlight cid ep =>
+    | .inFlight cid ep ready =>
       let ans := env.tokO p.inst p.tok s.clock
       let out : Out := .tok { rid := rid, host := p.host, tok := p.tok, inst := some p.inst, res := ans.res,
-                              time := s.clock, src := .fresh, ep := some ep, ready := readyNames s p.inst }
+                              time := s.clock, src := .fresh, ep := some ep, ready := ready }
       let s1 := delTok s rid
       match cid with
       | none => (s1, [out])
@@ -521,7 +523,7 @@ def sarBegin (s : State) (rid : Rid) (host : Str) (attrs : Attrs) (choice : Nat)
     let s := { s with nextRid := rid + 1 }
     match clientFor s host choice with
     | .error k => (s, [sarOutErr s rid host attrs (mgrGet s.mgr host) none k])
-    | .ok (c, e) => (setSar s ⟨rid, host, attrs, c, e.name, .resolved⟩, [])
+    | .ok (c, e) => (setSar s ⟨rid, host, attrs, c, e.name, readyNames s c, .resolved⟩, [])
 
 /-- `caches.Load(ck)` / `LoadOrStore(ck, cache.NewLRUExpireCache(8192))` -/
 def sarCache (s : State) (rid : Rid) : State × List Out :=
@@ -553,8 +555,10 @@ def sarLookup (s : State) (rid : Rid) : State × List Out :=
       match sarGet s cid (specOf p.attrs) with
       | some e =>
         if s.clock ≤ e.expiry then
-          (delSar s rid, [.sar { rid := rid, host := p.host, attrs := p.attrs, inst := some p.inst, res := decideStatus e.st,
-                                time := s.clock, src := .cached e.storedAt e.expiry, ep := none, ready := [] }])
+          let out : Out := .sar { rid := rid, host := p.host, attrs := p.attrs, inst := some p.inst,
+                                  res := decideStatus e.st, time := s.clock, src := .cached e.storedAt e.expiry,
+                                  ep := none, ready := [] }
+          (delSar s rid, [out])
         else (setSar s { p with stage := .inFlight cid }, [])
       | none => (setSar s { p with stage := .inFlight cid }, [])
     | _ => (s, [])
@@ -568,7 +572,7 @@ def sarFinish (env : Env) (s : State) (rid : Rid) : State × List Out :=
     | .inFlight cid =>
       let ans := env.sarO p.inst (specOf p.attrs) s.clock
       let out : Out := .sar { rid := rid, host := p.host, attrs := p.attrs, inst := some p.inst, res := ans.res,
-                              time := s.clock, src := .fresh, ep := some p.ep, ready := [] }
+                              time := s.clock, src := .fresh, ep := some p.ep, ready := p.ready }
       let s1 := delSar s rid
       match ans with
       | .err => (s1, [out])
